@@ -89,6 +89,9 @@ func c09Alphabet(k ref.CartKind, banks int, rtc ...bool) []c08Ev {
 			evs = append(evs, c08Ev{a, v})
 		}
 	}
+	// stores next door that are not the cartridge's: video RAM, work RAM, echo RAM (whose image of the RAM window's
+	// offsets is E000 / FDFF), high RAM: none of them may reach cartridge RAM
+	evs = append(evs, c08Ev{0x8000, 0x3c}, c08Ev{0x9fff, 0x3c}, c08Ev{0xc000, 0x3c}, c08Ev{0xe000, 0x3c}, c08Ev{0xe001, 0x3c}, c08Ev{0xfdff, 0x3c}, c08Ev{0xff80, 0x3c})
 	return evs
 }
 
@@ -135,6 +138,13 @@ func (p *cartPair) c09Apply(ev c08Ev) *explore.Fail {
 	ctx := "a write to " + region(ev.A)
 	if ev.A >= 0xa000 {
 		ctx = "a RAM write"
+		if ev.A >= 0xc000 {
+			ctx = "a write outside the cartridge (" + region(ev.A) + ")"
+		}
+		// a store into the RAM window (or beyond) is not a control write: both ROM windows keep their pages
+		if f := p.checkWindows(ctx); f != nil {
+			return f
+		}
 	}
 	return p.checkRAMWindow(ctx)
 }
